@@ -13,11 +13,11 @@ from harness.common import vec, E
 from harness.tr import mk_array
 
 EVIDENCE = {
-    "functions": ["curve.Ellipse.__init__", "curve.Circle.__init__/radius/area", "curve.Sphere.__init__/center/radius/volume/area/_alpha", "curve.Conic.from_points", "curve.Cone.__init__ / Cylinder.__init__ (concrete octant sweep)",
+    "functions": ["curve.Ellipse.__init__", "curve.Circle.__init__/radius/area", "curve.Sphere.__init__/center/radius/volume/area/_alpha", "curve.Conic.from_points / from_tangent / from_crossratio", "curve.Conic.from_foci (concrete lattice sweep)", "curve.Cone.__init__ / Cylinder.__init__ (concrete octant sweep)",
                   "QuadricTensor.contains", "PointLikeTensor._normalize_array"],
     "bounds": "circle / ellipse / sphere: centre given by an arbitrary non-zero multiple of its coordinates (free weight), radii free positive reals, query point free; from_points: two free and three "
-              "lattice points; cone / cylinder: every octant of the axis direction with lattice parameters (concrete evaluation of the locus at constructed points); pi symbolic",
-    "outside": "from_tangent, from_foci, from_crossratio, Circle.center (through foci: nested complex radicals; tier 'attempt'), cones with symbolic axis (log/rotation stubs with nested radicals), rounding",
+              "lattice points; from_tangent: four lattice points, tangent line with lattice direction and a free real offset (real branch and complex fall-back branch); from_crossratio: four lattice points and a fifth point with a free abscissa; integer-typed weighted centres with integer radius; from_foci: lattice foci x lattice boundary points incl. points equidistant from the foci (concrete evaluation, supplementary); cone / cylinder: every octant of the axis direction with lattice parameters (concrete evaluation of the locus at constructed points); pi symbolic",
+    "outside": "from_foci symbolically (nested complex radicals; tier 'attempt', undecided), Circle.center through foci, cones with symbolic axis (log/rotation stubs with nested radicals), rounding",
     "assumptions": ["math.pi based constants are recognised as rational multiples of the symbol pi", "np.linalg.eigvalsh stub: the normalisation factor of from_points is a positive unknown"],
 }
 
